@@ -63,7 +63,7 @@ impl TryFrom<&ctehexml::CtehexmlData> for Model {
         let cons = cons_from_bdl(bdl, &id_maps)?;
         let spaces = spaces_from_bdl(bdl, &id_maps)?;
         let walls = walls_from_bdl(bdl, &id_maps)?;
-        let (windows, shades) = windows_and_shades_from_bdl(bdl, &walls, &id_maps);
+        let (windows, shades) = windows_and_shades_from_bdl(bdl, &walls, &id_maps)?;
         let thermal_bridges = thermal_bridges_from_bdl(bdl);
 
         // Completa metadatos desde ctehexml y el bdl
@@ -170,8 +170,12 @@ fn spaces_from_bdl(bdl: &Data, id_maps: &IdMaps) -> Result<Vec<Space>, Error> {
 ///
 /// El polígono 3D del opaco se obtiene a partir de los datos de opaco y del espacio
 /// Para cada nivel, primero se gira el azimuth y luego se desplaza x, y, z
-fn wall_geometry(wall: &hulc::bdl::Wall, bdl: &Data) -> WallGeom {
-    let space = bdl.spaces.iter().find(|s| s.name == wall.space).unwrap();
+fn wall_geometry(wall: &hulc::bdl::Wall, bdl: &Data) -> Result<WallGeom, Error> {
+    let space = bdl
+        .spaces
+        .iter()
+        .find(|s| s.name == wall.space)
+        .ok_or_else(|| format_err!("Espacio {} del opaco {} no encontrado", wall.space, wall.name))?;
     let space_polygon = &space.polygon;
     let global_deviation = global_deviation_from_north(bdl);
 
@@ -184,7 +188,9 @@ fn wall_geometry(wall: &hulc::bdl::Wall, bdl: &Data) -> WallGeom {
         * match wall.location.as_deref() {
             // 1. Casos definidos por vértice
             Some(loc) if loc != "TOP" && loc != "BOTTOM" => {
-                let [p1, _] = space.polygon.edge_vertices(loc).unwrap();
+                let [p1, _] = space.polygon.edge_vertices(loc).ok_or_else(|| {
+                    format_err!("Vértice {} del opaco {} no encontrado en el polígono del espacio", loc, wall.name)
+                })?;
                 point![
                     p1.x + wall.x + space.x,
                     p1.y + wall.y + space.y,
@@ -238,7 +244,9 @@ fn wall_geometry(wall: &hulc::bdl::Wall, bdl: &Data) -> WallGeom {
             // Definimos el polígono con inicio en 0,0 y ancho y alto según vértices y espacio
             // La "position (x, y, z)" que define el origen de coordenadas del opaco será la del primer vértice
             // Pero se calcula fuera de esta función
-            let [p1, p2] = space_polygon.edge_vertices(vertex).unwrap();
+            let [p1, p2] = space_polygon.edge_vertices(vertex).ok_or_else(|| {
+                format_err!("Vértice {} del opaco {} no encontrado en el polígono del espacio", vertex, wall.name)
+            })?;
             let width = (p2 - p1).magnitude();
             let height = space.height;
             vec![
@@ -249,18 +257,18 @@ fn wall_geometry(wall: &hulc::bdl::Wall, bdl: &Data) -> WallGeom {
             ]
         }
         _ => {
-            panic!("Definición de polígono de opaco {} desconocida", wall.name)
+            bail!("Definición de polígono de opaco {} desconocida", wall.name)
         }
     };
 
-    WallGeom {
+    Ok(WallGeom {
         azimuth: fround2(orientation_bdl_to_52016(
             global_deviation + space.angle_with_building_north + wall.angle_with_space_north,
         )),
         tilt: fround2(wall.tilt),
         position: Some(position),
         polygon,
-    }
+    })
 }
 
 /// Construye muros de la envolvente a partir de datos BDL
@@ -279,7 +287,7 @@ fn walls_from_bdl(bdl: &Data, id_maps: &IdMaps) -> Result<Vec<Wall>, Error> {
                     _ => None,
                 },
                 bounds: wall.bounds.into(),
-                geometry: wall_geometry(wall, bdl),
+                geometry: wall_geometry(wall, bdl)?,
             })
         })
         .collect::<Result<Vec<Wall>, _>>()
@@ -299,14 +307,17 @@ fn windows_and_shades_from_bdl(
     bdl: &Data,
     walls: &[Wall],
     id_maps: &IdMaps,
-) -> (Vec<Window>, Vec<Shade>) {
+) -> Result<(Vec<Window>, Vec<Shade>), Error> {
     //TODO: falta por trasladar la definición de lamas (louvres)
     let mut windows = vec![];
     let mut shades = vec![];
 
     for win in &bdl.windows {
         let id = uuid_from_obj(win);
-        let wall = walls.iter().find(|w| w.name == win.wall).unwrap();
+        let wall = walls
+            .iter()
+            .find(|w| w.name == win.wall)
+            .ok_or_else(|| format_err!("Opaco {} del hueco {} no encontrado", win.wall, win.name))?;
 
         // Definición del hueco
         let window = Window {
@@ -409,7 +420,7 @@ fn windows_and_shades_from_bdl(
     let othershades = shades_from_bdl(bdl);
     shades.extend_from_slice(&othershades);
 
-    (windows, shades)
+    Ok((windows, shades))
 }
 
 /// Construye puentes térmicos de la envolvente a partir de datos BDL
@@ -483,14 +494,19 @@ fn shades_from_bdl(bdl: &Data) -> Vec<Shade> {
             } else if let Some(vertices) = sh.vertices.as_ref() {
                 // 2. Sombras definidas por vértices
                 // Aquí tenemos que tener cuidado con las operaciones de giros ya que tienen criterios de medición distintos
+                // Una sombra con menos de tres vértices no define una superficie
+                if vertices.len() < 3 {
+                    log::warn!("Sombra {} con menos de tres vértices. Se ignora", sh.name);
+                    return None;
+                }
                 let normal = (vertices[1] - vertices[0]).cross(&(vertices[2] - vertices[1]));
                 // XXX: Esto se podría evitar iterando hasta encontrar dos segmentos que no sean colineales
                 // Basta con ir probando los siguientes tres puntos
                 // https://community.khronos.org/t/how-to-calculate-polygon-normal/49265/3
-                assert!(
-                    normal.magnitude() > 10.0 * f32::EPSILON,
-                    "Polígono con puntos colineales"
-                );
+                if !(normal.magnitude() > 10.0 * f32::EPSILON) {
+                    log::warn!("Sombra {} con polígono de puntos colineales. Se ignora", sh.name);
+                    return None;
+                }
                 let tilt = Vector3::z_axis().angle(&normal);
                 // Azimuth del elemento de sombra (¡Atención! Criterio EN S=0, E=+90, W=-90)
                 let shade_azimuth = if (tilt % std::f32::consts::PI).abs() > (10.0 * f32::EPSILON) {
@@ -531,7 +547,8 @@ fn shades_from_bdl(bdl: &Data) -> Vec<Shade> {
                     polygon,
                 )
             } else {
-                panic!("Definición inesperada de elemento de sombra");
+                log::warn!("Definición inesperada del elemento de sombra {}. Se ignora", sh.name);
+                return None;
             };
 
             Some(Shade {
@@ -774,13 +791,24 @@ fn schedules_from_bdl(bdl: &Data, id_maps: &IdMaps) -> Result<SchedulesDb, Error
                             .map(|(day, month)| day_of_year(*day, *month)),
                     )
                     .collect();
-                let day_count = end_day.windows(2).map(|t| t[1] - t[0]);
+                let day_count = end_day
+                    .windows(2)
+                    .map(|t| {
+                        t[1].checked_sub(t[0]).ok_or_else(|| {
+                            format_err!("Fechas no crecientes en el horario anual {}", sch.name)
+                        })
+                    })
+                    .collect::<Result<Vec<u32>, Error>>()?;
 
-                assert!(
-                    day_count.len() == sch.weeks.len()
-                        && day_count.len() == sch.months.len()
-                        && day_count.len() == sch.days.len()
-                );
+                if !(day_count.len() == sch.weeks.len()
+                    && day_count.len() == sch.months.len()
+                    && day_count.len() == sch.days.len())
+                {
+                    bail!(
+                        "Número distinto de días, meses y horarios semanales en el horario anual {}",
+                        sch.name
+                    );
+                }
 
                 let week_ids = sch
                     .weeks
